@@ -503,6 +503,10 @@ Definition sw_m_redirect := redirect_m V sw_node sw_m_plain.
 Definition sw_m_redirect_intact := redirect_intact_m V sw_node sw_m_plain sw_m_intact.
 Definition sw_m_route_ok := route_ok sw_node sw_m_ok.
 
+Definition sw_m_copy (cur : sw_node) (src dst : mems V) : mems V :=
+  mat V (fun w A => if A <? sw_msize (snd cur) w then cell V dflt src w A else cell V dflt dst w A) dst.
+Definition sw_m_transpose := transpose_m V sw_node sw_m_plain sw_m_intact sw_m_copy.
+
 (** without a spare buffer: beyond E each of the two arrays holds what the source or the dest array held
     (a gather copies the whole source array into dest; every other step leaves both untouched there) *)
 Theorem sw_m_redirect_frame cur steps src dst : sw_m_route_ok cur steps = true -> sw_Wm src -> sw_Wm dst ->
